@@ -671,6 +671,15 @@ func corpus() []Case {
 			Chans: []Chan{{Name: "chan0", Number: 0, Rows: 1, Cols: 1, PRows: 1, PCols: 8, BRows: 8, BCols: 1,
 				Proj: fbits(1, 0, 0, 0, 0, 0, 0, 0), Basis: fbits(1, 0, 0, 0, 0, 0, 0, 0), Desc: "m"}},
 			Ops: []Op{{Op: "rec", Recs: []Rec{simpleRec(1, 2, 8, ramp(8, 0), 1), simpleRec(2, 3, 8, ramp(8, 0), 2)}}}},
+		// an OFF model of more than 4 MiB (33 basis vectors for 8192-sample records: the header with its two float64
+		// matrices is one 4.3 MB payload); the matrices are +0.0 after a few entries so that the case stays cheap to ship
+		{Kind: "bench", Source: "Abaco", SfDiv: 64, NPre: 2048, NSamp: 8192, RateNum: 1000000, RateDen: 1, Chans: []Chan{
+			{Name: "chan1", Number: 1, Rows: 1, Cols: 1, NBases: 33, Proj: fbits(1, -2.5, 1e-300), Basis: fbits(3, math.Inf(1)), Desc: "large model"}}, Ops: []Op{
+			{Op: "start", TOFF: true},
+			{Op: "pub", Ch: 0, Recs: []Rec{{Frame: 1, Ns: 1000, Data: ramp(5, 100), Mean: math.Float64bits(1.5), Coefs: make([]uint64, 33)}}},
+			{Op: "pub", Ch: 0, Recs: []Rec{{Frame: 2, Ns: 2000, Data: ramp(5, 200), Resid: math.Float64bits(2.5), Coefs: make([]uint64, 33)},
+				{Frame: 3, Ns: 3000, Data: ramp(5, 300), Coefs: make([]uint64, 33)}}},
+			{Op: "stop"}}},
 		// sub-frame divisions 0 (Triangle, Roach) with a non-zero offset, divisions 1; a pixel name, channel name, source name
 		// and model description full of format verbs, quotes, backslashes and non-ASCII text
 		{Kind: "bench", Source: "Tri%dangle 100% \"q\" \\ \u00b5", SfDiv: 0, NPre: 1, NSamp: 4, RateNum: 156250, RateDen: 1, UseMap: true, Chans: []Chan{
